@@ -46,6 +46,10 @@ def cases(tier, seed):
 def _bound(kind, rng):
     a = float(np.round(rng.normal(), 2))
     w = float(np.round(abs(rng.normal()) + 0.3, 2))
+    if kind == "two" and rng.random() < 0.3:
+        # a band that is narrow relative to its magnitude is still a two-sided inequality
+        a = float(np.round(rng.choice([-1.0, 1.0]) * 10 ** rng.uniform(2, 6), 1))
+        w = float(np.round(10 ** rng.uniform(-2, 1), 3))
     return {"eq": (a, a), "lower": (a, np.inf), "upper": (-np.inf, a), "two": (a, a + w), "free": (-np.inf, np.inf)}[kind]
 
 
@@ -138,6 +142,15 @@ def run_case(case, obs):
                         base = a[0, 1 + j] @ full(xf) + b[0, 1 + j]
                         for eps in (-1e-3, 1e-3):
                             pts.append(xf + g * ((bnd + eps - base) / (g @ g)))
+        if nl:
+            Af = A[:, free]
+            for i in range(nl):
+                for bnd in (spec["linear"]["lower_bounds"][i], spec["linear"]["upper_bounds"][i]):
+                    if np.isfinite(bnd) and np.linalg.norm(Af[i]) > 1e-6:
+                        xf = x0[free].copy()
+                        base = A[i] @ full(xf)
+                        for eps in (-1e-3, 1e-3):
+                            pts.append(xf + Af[i] * ((bnd + eps - base) / (Af[i] @ Af[i])))
         res = []
         for xf in pts:
             res.append((np.array(xf), _captured_feasible(name, kw, np.array(xf), nfree, obs)))
@@ -259,6 +272,17 @@ def _captured_feasible(name, kw, xf, nfree, obs):
     from scipy.optimize import LinearConstraint, NonlinearConstraint  # noqa: PLC0415
 
     ok, detail = True, []
+    # the plug-in treats points within its own allclose tolerance (rtol 1e-5) as one point; two near-boundary test points at
+    # |x| ~ 1e3 are closer than that, so visit a far-away point first (the statement is about well separated test points)
+    far = -np.asarray(xf) * 3.0 - 777.0
+    for con in (kw.get("constraints") or [])[:1]:
+        if isinstance(con, dict):
+            con["fun"](far)
+        elif hasattr(con, "fun"):
+            con.fun(far)
+    for con in (kw.get("constraints") or [])[1:2]:
+        if not isinstance((kw.get("constraints") or [None])[0], dict) and hasattr(con, "fun"):
+            con.fun(far)
     for con in kw.get("constraints") or []:
         if isinstance(con, dict):
             v = float(np.ravel(np.asarray(con["fun"](xf)))[0])
